@@ -603,6 +603,26 @@ func FeasiblePath(p BlockPath) bool {
 		if !ok {
 			continue
 		}
+		// a boolean flag that the path itself has set: `found := false; ...; found = true; ...; if found`
+		if b.Succs[0] != b.Succs[1] {
+			cond := iff.Cond
+			neg := false
+			for k := 0; k < 3; k++ {
+				if u, isNot := cond.(*ssa.UnOp); isNot && u.Op == token.NOT {
+					cond, neg = u.X, !neg
+				}
+			}
+			if _, isPhi := cond.(*ssa.Phi); isPhi {
+				if bv, isConst := ConstBool(ResolveOnPath(cond, p[:i+1])); isConst {
+					want := bv != neg
+					tookTrue := p[i+1] == b.Succs[0]
+					if tookTrue != want {
+						return false
+					}
+					continue
+				}
+			}
+		}
 		tv, nilSucc, ok := NilTest(iff)
 		if !ok {
 			// an emptiness test of a slice decides like a nil test for
